@@ -21,10 +21,10 @@ CHECKS = {
     "C13": ("exploration", "reference interpreter vs AlgoStack on the complete truth table of stacks up to length 5, sampled nested programs, spies for temp/perm/run order", "5.C13"),
     "C14": ("exploration", "reference-set monitor: temp['selected']/temp['stat'] after each selection algo vs an independent recomputation from the raw frame truncated at now; history-independence differential (same algo instances over consecutive dates vs fresh instances)", "5.C14"),
     "C15": ("exploration", "algebraic post-condition monitor on temp['weights'] after each weighting algo (sums, bounds, risk relations, ex-ante volatility, tracking-error trigger); LimitDeltas also on stale trees", "5.C15"),
-    "C16": ("exploration", "history + trade-log + spy-algo oracle on leveraged runs with injected price shocks (flag, liquidation, terminality); calibrated zero-crossing through swept carry; flag-at-every-completed-update monitor", "5.C16"),
+    "C16": ("exploration", "history + trade-log + spy-algo oracle on leveraged runs with injected price shocks (flag, liquidation, terminality); calibrated zero-crossing through swept carry; bankruptcy on the entry / re-entry date and of hedge-only books; flag-at-every-completed-update monitor", "5.C16"),
     "C17": ("exploration", "invariant monitor after every fixed-income operation (notional, weights), coupon/cost/sweep/additive-index oracles from the input frames, Rebalance target spies", "5.C17"),
     "C18": ("exploration", "report-vs-history recomputation on finished runs and replay differential through ReplayTransactions", "5.C18"),
-    "C19": ("exploration", "structural invariant checks on constructed trees, universe probe algo inside running strategies, lazy-vs-eager differential", "5.C19"),
+    "C19": ("exploration", "structural invariant checks on constructed trees (members vs a fresh walk after every growth step), universe probe algo inside running strategies, lazy-vs-eager differential", "5.C19"),
     "C20": ("exploration", "risk-aggregation reference, hedge post-condition vs numpy least squares, post-condition wrappers around close/roll algos with the trade log (also right after un-flushed quantity trades)", "5.C20"),
 }
 
